@@ -264,7 +264,8 @@ def sessions(tier):
     # answer meant to be in time was delivered later than 0.92 T is re-run and otherwise left out.
     tl = "T%d" % SLOW_MS
     lat = [0, 30, 60, 80]
-    slow = lambda r, pct: r if pct == 0 else "L%d%s" % (pct, r[1:])
+    # (only answers of the expected type can be delayed by the scripted reader: an ERROR_MESSAGE / wrong-type reaction stays prompt)
+    slow = lambda r, pct: r if pct == 0 or not r.startswith("R:") else "L%d%s" % (pct, r[1:])
     for a in (["R:32:64:0", "R:64:32:0", "R:0:32:0", "R:96:64:0"] + (resp_ok if thorough else [])):
         for b in ["R:0:0:0", "R:0:0:%d" % VER_UNSUPPORTED] + (["E:100", "W:12"] if thorough else []):
             for p1 in lat:
